@@ -28,6 +28,15 @@ abbrev Stmt (σ : Type) := σ → Option (Ctl σ)
 def rd (d : Bytes) (i : Int) : Option Int :=
   if i < 0 then none else (d[i.toNat]?).map (fun b => (b.toNat : Int))
 
+/-- a mutable array (the content of a buffer the function writes to): read and write, `none` outside it -/
+def rdM (m : List Int) (i : Int) : Option Int :=
+  if i < 0 then none else m[i.toNat]?
+def wrM (m : List Int) (i v : Int) : Option (List Int) :=
+  if i < 0 then none else if i.toNat < m.length then some (m.set i.toNat v) else none
+
+/-- the bytes of a buffer as the values a C program reads -/
+def memOf (b : Bytes) : List Int := b.map (fun x => (x.toNat : Int))
+
 /-! conversions to the C integer types (two's complement) -/
 def u8 (v : Int) : Int := v % 256
 def u32 (v : Int) : Int := v % 4294967296
